@@ -202,6 +202,7 @@ func C04(p *Prog, r *Run) {
 		r.Fn(FuncName(mt), FuncName(avg))
 		tm := NewTermer(mt)
 		okLen, okElem := false, false
+		var foreign []string
 		Instrs(mt, func(_ *ssa.BasicBlock, _ int, in ssa.Instruction) {
 			if ms, ok := in.(*ssa.MakeSlice); ok {
 				if tm.Of(ms.Len).String() == "len(recv.Traits)" {
@@ -216,11 +217,17 @@ func C04(p *Prog, r *Run) {
 						if a[0].Op == "elem" && a[0].Args[0].String() == "recv.Traits" && a[1].Op == "elem" && a[1].Args[0].String() == "p1.Traits" &&
 							a[0].Args[1].V == ia.Index && a[1].Args[1].V == ia.Index {
 							okElem = true
+							return
 						}
+					}
+					if _, isMS := stripPtr(ia.X).(*ssa.MakeSlice); isMS {
+						foreign = append(foreign, vt.String()+" at "+p.Pos(st.Pos()))
 					}
 				}
 			}
 		})
+		r.Check(len(foreign) == 0, "mateTraits.only-averages", p.Pos(mt.Pos()), "every element of the child's trait list is a NewTraitAvrg result (a new object)",
+			"the child's trait list also receives "+strings.Join(foreign, "; ")+": a trait object of a parent becomes part of the child, so mutating the child's traits changes the parent (and, under the parallel executor, races with other goroutines reading that parent)")
 		r.Check(okLen && okElem, "mateTraits", p.Pos(mt.Pos()), "newTraits[i] = NewTraitAvrg(g.Traits[i], og.Traits[i]), len(g.Traits) of them",
 			fmt.Sprintf("mateTraits does not build len(g.Traits) traits with newTraits[i] = NewTraitAvrg(g.Traits[i], og.Traits[i]) (length ok=%v, element ok=%v)", okLen, okElem))
 		sm := sums.Ctor(avg)
